@@ -272,6 +272,7 @@ type FnRun struct {
 	errDisc map[string]bool
 	failKeyList []string
 	trustedCallees map[string]bool
+	trustedFP map[string]string // trusted function -> fingerprint of its body
 	pureIfaces map[string]bool
 	userCalls map[string]bool
 	spawned map[string]bool
